@@ -60,7 +60,13 @@ def run(ck, build):
     for f in fns:
         C03.guard_and_must(fl, f, label)
         C03.args_rule(fl, mod, f, label, parts=("C04",))
-    C03.cmp_rule(fl, mod, label)
+    try:
+        C03.cmp_rule(fl, mod, label)
+    except Broken as e:
+        if not ck.violations:
+            raise
+        # the call-site rules above already refuted obligations; that the wipe loop itself cannot be summarised does not take them back
+        ck.note("wipe loop not decided: %s" % str(e)[:200])
     fx = Module(build.fixture_facts(os.path.join(os.path.dirname(os.path.dirname(os.path.dirname(__file__))), "fixtures", "c03_bad.c")))
     sub = type(ck)("C04-fixture")
     C03.cmp_rule(sub, fx, "fixture")
